@@ -227,7 +227,7 @@ def mk_case(base_lines, positions, lang, rng, origin, cfg_density):
     kinds = [{'default': rng.choice(['block', 'line']), 'custom': 'custom', 'regex': 'regex', 'asm': rng.choice(['pragma_asm', 'hash_asm']),
               'regex_default': 'regex_default', 'regex_custom_off': 'regex_custom_off'}[fam]
              for _ in range(nreg)]
-    cfgd = draw_cfg(rng, cfg_density, lang)
+    cfgd = draw_cfg(random.Random(family.cfg_seed(rng.randrange(2 ** 32))), cfg_density, lang)
     regions, alts = [], []
     unterminated = rng.random() < 0.08
     for i, (pos, k) in enumerate(zip(sorted(positions), kinds)):
@@ -265,6 +265,7 @@ def to_case(v):
 def main(ctx):
     quick = ctx.tier == 'quick'
     _EX.update(family.exclusions(ctx))
+    family.set_tier(ctx)
     ctx.rule = ('case = (base program, 1..3 regions with generated content and an alternative content, marker kind, config); 2 executions; '
                 'non-trivial = the regions hold >= 2 non-blank lines (content is random text that formatting would change); distinct by sha256')
     ctx.assumptions = ['marker lines are located in the output by the unique tag written into the marker comment',
@@ -275,7 +276,7 @@ def main(ctx):
     files = [f for f in corpus.files() if f[1] in langs and os.path.getsize(os.path.join(corpus.input_root(), f[0])) < 8000]
     n = 1200 if quick else 40000
     for i in range(n):
-        rng = random.Random(core.subseed(ctx.seed, 'corpus', i))
+        rng = random.Random(core.subseed(ctx.useed, 'corpus', i))
         rel, lang = rng.choice(files)
         src = corpus.read(rel)
         if b'\x00' in src[:2000] or b'INDENT-O' in src or b'asm' in src:
